@@ -109,8 +109,7 @@ Theorem source_has_no_unrecognised_order_site : forall s, In s order_sites -> os
 Proof. exact no_unknown_order_site. Qed.
 Print Assumptions source_has_no_unrecognised_order_site.
 
-Theorem source_pointer_keyed_containers_have_recognised_comparators :
-  forallb (fun c => negb (String.eqb (snd c) "by_comparator_unrecognised"%string)) order_containers = true.
+Theorem source_pointer_keyed_containers_have_recognised_comparators : containers_recognised = true.
 Proof. exact order_containers_recognised. Qed.
 Print Assumptions source_pointer_keyed_containers_have_recognised_comparators.
 
